@@ -15,7 +15,7 @@ func init() {
 	vlib.Register(&vlib.Prop{
 		ID:    "C04",
 		Level: "exploration",
-		Cases: func(tier string) int { return vlib.TierN(tier, 960, 24000) },
+		Cases: func(tier string) int { return vlib.TierN(tier, 960, 144000) },
 		Rule: "case i runs one generated concurrent program on a real GoChannel: config i%12 of {buffer 0/1/4} x {persistent} x {blocking}, 1..3 topics, 1..4 publisher goroutines " +
 			"(1..12 messages each, batches of 1..3, random metadata/payload), 0..4 subscriptions per topic created before or concurrently with the publishers, consumer behaviours " +
 			"{ack, nack 1..3x then ack, slow, edit metadata / re-assign payload of the received copy, cancel after k receives, cancel from another goroutine}; yield/delay injection at the gochannel hook points. " +
